@@ -110,8 +110,8 @@ theorem declare_under_tree_rejected (s : KState) (cfg : KConfig) (creator : Key)
     (ht : s.owningTree p = .ok (some t)) :
     ∃ msg, s.declareFile cfg creator p st = .error (.graph msg) := by
   refine ⟨"static tree owns path", ?_⟩
-  unfold KState.declareFile
-  have hmem : st ∈ Generated.Enums.declarableStates := by simpa using hdecl
-  simp [hmem, hv, hc, ht, bind, Except.bind, graphErr, throw, throwThe, MonadExceptOf.throw]
+  unfold KState.declareFile KState.declareFileGuard KState.declareFileChecks
+  rw [if_pos hdecl]
+  simp [hv, hc, ht, bind, Except.bind, graphErr, throw, throwThe, MonadExceptOf.throw]
 
 end StepupModel.Props.C08
